@@ -75,6 +75,22 @@ Definition run (tbl : list call) (prog : list instr) (shots : option Z) (d : nat
   execute nat instr Q i_modes i_meas i_none_ok (fun i => cond_eval (i_cond i)) (table_step tbl)
           prog shots 0%nat d.
 
+(* fixes/C03-conditioned-mid-circuit-measurement.diff: _validate_measurements_at_end refuses
+   (InvalidSimulation) a conditioned measurement that is not the last instruction, before
+   any evolution.  [strict] says whether the tree under test carries that validation (the
+   harness probes it), so that the same model ties both the current and the repaired tree *)
+Definition has_cond (i : instr) : bool := match i_cond i with CTrue => false | _ => true end.
+Fixpoint cond_meas_mid (prog : list instr) : bool :=
+  match prog with
+  | [] => false
+  | i :: rest => match rest with
+                 | [] => false
+                 | _ => (i_meas i && has_cond i) || cond_meas_mid rest
+                 end
+  end.
+Definition run_strict (strict : bool) (tbl : list call) (prog : list instr) (shots : option Z) (d : nat) :=
+  if strict && cond_meas_mid prog then Err (EStep 4) else run tbl prog shots d.
+
 (* ---- comparison with what the implementation returned *)
 Definition err_code (e : error) : Z :=
   match e with EInactiveModes => -1 | ECondition => -2 | EShotsNone => -3 | EStep c => c end.
@@ -115,9 +131,9 @@ Definition exact_of (shots : option Z) := match shots with Some _ => true | None
 (* 0 = agree; 1 = executor disagrees; 2 = samples disagree; 3 = get_counts disagrees with the
    repaired definition but equals the overwriting one; 4 = get_counts disagrees otherwise;
    5 = outcome_map disagrees *)
-Definition compare_case (tbl : list call) (prog : list instr) (shots : option Z) (d : nat)
-           (obs : observed) : Z :=
-  match run tbl prog shots d, o_error obs with
+Definition compare_case (strict : bool) (tbl : list call) (prog : list instr) (shots : option Z)
+           (d : nat) (obs : observed) : Z :=
+  match run_strict strict tbl prog shots d, o_error obs with
   | Err e, Some c => if err_code e =? c then 0 else 1
   | Err _, None => 1
   | Ok _, Some _ => 1
